@@ -27,6 +27,7 @@ def test_ext():
         "QAlloc": ([], [Q]),
         "QFree": ([Q], []),
         "CCX": ([Q, Q, Q], [Q, Q, Q]),
+        "And2": ([B, B], [B]),
     }
     for name, (i, o) in sigs.items():
         e.add_op_def(ext.OpDef(name=name, description=f"{name} test op",
@@ -42,7 +43,7 @@ def test_ext():
 
 OP_SIGS = {  # name -> (n_in, n_out) mirror for oracles (hand-written, not read from the ext)
     "H": (1, 1), "CX": (2, 2), "Measure": (1, 2), "Rz": (2, 1), "Fan3": (1, 3), "Nop0": (0, 0),
-    "Swap": (2, 2), "QAlloc": (0, 1), "QFree": (1, 0), "CCX": (3, 3),
+    "Swap": (2, 2), "QAlloc": (0, 1), "QFree": (1, 0), "CCX": (3, 3), "And2": (2, 1),
 }
 
 
